@@ -23,7 +23,7 @@ fn rerr(e: &str) -> String {
         "Bad file descriptor #2" => "EBadFd2",
         "Bad file descriptor #3" => "EBadFd3",
         "redirection syntax error" => "ESyntax",
-        "syntax error: empty command" => "EEmptyCmd",
+        "syntax error: empty command" => "EEmpty",
         _ => "EOther",
     };
     format!("E({})", n)
@@ -98,21 +98,8 @@ fn ranges_str(v: &[(usize, usize)]) -> String {
 }
 
 fn main() {
-    // The real expansion forks (command substitution, pipelines inside it). A forked child normally execs or exits,
-    // but when the CHILD panics (e.g. `$(a | > f)`: is_builtin indexes an empty token list in the child) the unwinding
-    // would reach main_loop's catch_unwind inside the child, which would then go on processing the rest of the case
-    // file and write duplicate result lines. A process that is not the original harness must never return from here.
-    let pid0 = std::process::id();
-    main_loop(move |f| {
-        let r = catch_unwind(AssertUnwindSafe(|| op(f)));
-        if std::process::id() != pid0 {
-            unsafe { libc::_exit(101) }
-        }
-        match r {
-            Ok(s) => s,
-            Err(e) => std::panic::resume_unwind(e),
-        }
-    });
+    // (a forked child of the code under test that panics is stopped by hx::main_loop itself)
+    main_loop(|f| op(f));
 }
 
 /// Every `line` case runs in its own empty directory (removed afterwards, also when the case panics): the real
